@@ -177,7 +177,11 @@ static void attr_check(const char *when)
     char nm[256];
     if (!have_attr) return;
     if (ix == FAIL) { hk_fail("gr-attr-data", "%s: attribute 'note' not found", when); return; }
-    if (GRattrinfo(riid, ix, nm, &nt, &cnt) == FAIL || nt != DFNT_INT32 || cnt != attr_n) { hk_fail("gr-attr-data", "%s: GRattrinfo: nt %d count %d, set int32 x%d", when, (int)nt, (int)cnt, attr_n); return; }
+    if (GRattrinfo(riid, ix, nm, &nt, &cnt) == FAIL || nt != DFNT_INT32 || cnt != attr_n) {
+        /* a LARGER count than the one set last, seen after a reopen, is the known finding of C10 (a re-set with fewer values is not persisted:
+           the attribute's vdata is overwritten from record 0 and never shortened); everything else keeps the general key */
+        int shrink = nt == DFNT_INT32 && cnt > attr_n && strstr(when, "reopen") != NULL;
+        hk_fail(shrink ? "gr-attr-shrink-not-persisted" : "gr-attr-data", "%s: GRattrinfo: nt %d count %d, set int32 x%d", when, (int)nt, (int)cnt, attr_n); return; }
     if (GRgetattr(riid, ix, got) == FAIL || memcmp(got, attr_shadow, sizeof(int32) * (size_t)attr_n) != 0)
         hk_fail("gr-attr-data", "%s: value %d.. differs from the one set (%d..), count %d", when, (int)got[0], (int)attr_shadow[0], attr_n);
 }
